@@ -1,8 +1,8 @@
 (** * C01 - Latest view equals the last stored version of every entity.
     Only statements, each closed by [exact <lemma>] (or a short wrapper), with [Print Assumptions]. *)
 From Coq Require Import List ZArith NArith Bool Lia.
-From DH Require Import Lib.CheckLib Model.Store Model.FeedSpec Proofs.StoreProofs Proofs.C01Proofs
-     Check.StoreCheck.
+From DH Require Import Lib.CheckLib Model.Store Model.FeedSpec Model.Keys Proofs.StoreProofs Proofs.C01Proofs
+     Proofs.KeysProofs Check.StoreCheck.
 Import ListNotations.
 Open Scope Z_scope.
 
@@ -77,6 +77,30 @@ Theorem C01_refuted_eqlen :
   /\ current_of (fold_left (fapply identical) ops (fun _ => []) 1) 1 = Some cUndel.
 Proof. vm_compute. split; reflexivity. Qed.
 Print Assumptions C01_refuted_eqlen.
+
+(** ** byte level: why "Badger iterates a prefix in key order" means "sorted by the field values".
+    Keys are fixed-width big-endian fields (Model/Keys.v mirrors the PutUint16/32/64 calls); the check decodes
+    and re-encodes the REAL raw keys of every index family on each run and tests their order with [flt]. *)
+Theorem C01_key_order : forall f1 f2,
+  map fst f1 = map fst f2 -> in_range f1 -> in_range f2 ->
+  lex_ltb (enc f1) (enc f2) = flt f1 f2.
+Proof. exact enc_order. Qed.
+Print Assumptions C01_key_order.
+
+Theorem C01_key_injective : forall f1 f2,
+  map fst f1 = map fst f2 -> in_range f1 -> in_range f2 -> enc f1 = enc f2 -> f1 = f2.
+Proof. exact enc_inj. Qed.
+Print Assumptions C01_key_injective.
+
+(** the byte slices the readers and the garbage collector cut out of a key are the named fields *)
+Theorem C01_key_fields : forall fs, in_range fs -> dec (map fst fs) (enc fs) = Some (map snd fs).
+Proof. exact dec_enc. Qed.
+Print Assumptions C01_key_fields.
+
+Example C01_key_example :
+  raw_family_ok 8 [enc (lkey 2 5); enc (lkey 2 7); enc (lkey 3 1)] = true
+  /\ lex_ltb (enc (vkey 7 2 1790794029996498142 0)) (enc (vkey 7 2 1790794029996498142 1)) = true.
+Proof. vm_compute. split; reflexivity. Qed.
 
 (** non-vacuity *)
 Example C01_nonvacuous :
